@@ -70,3 +70,9 @@ Proof.
   apply String.eqb_eq in H. subst. reflexivity.
 Qed.
 Print Assumptions C10_number_verdict_decode_invariant.
+
+(* the number a `$` path offers to an ordering (QueryAddr.root_entry, bq BCR) is the same in both decodings *)
+Theorem C10_root_operand_decode_invariant : forall s a,
+  num_of_entry (Some (VJNum s a)) = num_of_entry (Some (VNum a)).
+Proof. intros s a. reflexivity. Qed.
+Print Assumptions C10_root_operand_decode_invariant.
